@@ -939,7 +939,7 @@ pub fn validate(bytes: &[u8]) -> (Option<Stream>, Vec<String>) {
     let fixed = st.frames.first().map_or(false, |f| !f.variable);
     for (i, f) in st.frames.iter().enumerate() {
         let last = i + 1 == nframes;
-        if !last && (f.block_size < info.min_block as u32) {
+        if !last && info.min_block != info.max_block && f.block_size < info.min_block as u32 {
             v.push(format!("frame {}: block<min {} < STREAMINFO min {}", i, f.block_size, info.min_block));
         }
         if fixed && info.min_block == info.max_block && !last && f.block_size != info.max_block as u32 {
@@ -1466,7 +1466,9 @@ mod tests {
         // total too small / too large
         assert_eq!(decode(&wrap(&fr, 1, 16, 16, 36, [0; 16])).unwrap_err().code, "too-many-samples");
         let e = decode(&wrap(&fr, 1, 16, 16, 38, [0; 16])).unwrap_err();
-        assert_eq!((e.code, e.frame), ("eof", Some(3)));
+        assert_eq!((e.code, e.frame), ("short-nonfinal-block", Some(2))); // the 5-sample frame is not the last
+        let e = decode(&wrap(&fr[..2 * mk(0, 16).len()], 1, 16, 16, 40, [0; 16])).unwrap_err();
+        assert_eq!((e.code, e.frame), ("eof", Some(2)));
         // decode_partial keeps the verified frames
         let (p, r) = decode_partial(&wrap(&fr[..fr.len() - 1], 1, 16, 16, 37, [0; 16]));
         assert_eq!((p.frames.len(), p.pcm.len(), r.unwrap().code), (2, 32, "eof"));
@@ -1537,24 +1539,37 @@ mod tests {
 
     #[test]
     fn robustness_no_panic() {
+        // NOTE: cuesheet.flac declares 48.7M stereo samples in 744 constant frames of 65535 samples, so a
+        // full decode costs seconds and ~2 GB; it only takes part in the (cheap) truncation sweep.
         let fx = fixtures();
-        for (_, data) in &fx {
-            for n in 0..=data.len().min(3000) {
+        for (name, data) in &fx {
+            let limit = if name == "cuesheet.flac" { 1000 } else { 3000 };
+            for n in 0..=data.len().min(limit) {
                 let t = &data[..n];
-                let _ = decode(t);
-                let _ = decode_partial(t);
+                let a = decode(t);
+                let (st, r) = decode_partial(t);
+                assert_eq!(a.is_ok(), r.is_none());
+                if n < data.len() {
+                    assert!(r.is_some(), "{} truncated to {} must not decode", name, n);
+                }
+                assert!(st.end_offset <= n);
                 let _ = validate(t);
             }
         }
-        for (_, data) in fx.iter().filter(|(_, d)| d.len() < 20000) {
+        for (name, data) in fx.iter().filter(|(n, _)| n != "cuesheet.flac") {
+            let small = data.len() < 1000;
             let mut m = data.clone();
             for bit in 0..data.len().min(600) * 8 {
                 m[bit / 8] ^= 0x80 >> (bit % 8);
-                let _ = decode(&m);
-                let (st, _) = decode_partial(&m);
-                let _ = validate(&m);
-                if st.first_frame_offset <= m.len() {
-                    let _ = validate_raw_frames(&m[st.first_frame_offset..]);
+                let (st, r) = decode_partial(&m);
+                if small {
+                    assert_eq!(decode(&m).is_ok(), r.is_none(), "{} bit {}", name, bit);
+                    let _ = validate(&m);
+                    let _ = validate_raw_frames(&m[st.first_frame_offset.min(m.len())..]);
+                }
+                // a flipped bit inside a frame must be caught by that frame's CRCs (or earlier)
+                if bit / 8 >= st.first_frame_offset && st.first_frame_offset != 0 {
+                    assert!(r.is_some(), "{} bit {} flipped in frame data but stream accepted", name, bit);
                 }
                 m[bit / 8] ^= 0x80 >> (bit % 8);
             }
